@@ -56,8 +56,9 @@ Proof.
   intros A lines lineno col Hr. unfold emit. set (n := Z.of_nat (length lines)) in *.
   destruct (py_index lines (lineno - 1)) eqn:E1.
   2:{ apply py_index_none in E1. exfalso. apply E1. fold n. lia. }
-  destruct (py_index lines (lineno - 2)) eqn:E2.
-  2:{ apply py_index_none in E2. exfalso. apply E2. fold n. lia. }
+  assert (Hprev : exists b, (if 2 <=? lineno then py_index lines (lineno - 2) else Some a) = Some b).
+  { destruct (2 <=? lineno) eqn:E3; [|eexists; reflexivity]. apply Z.leb_le in E3. apply py_index_some. fold n. lia. }
+  destruct Hprev as [b Hb]. rewrite Hb.
   set (lo := Z.max (lineno - CONTEXT_LINES) 1). set (hi := Z.min (lineno + CONTEXT_LINES + 1) (n + 1)).
   assert (Hlo : 1 <= lo) by (unfold lo; lia).
   assert (Hlohi : lo <= hi) by (unfold lo, hi, CONTEXT_LINES; lia).
@@ -88,18 +89,19 @@ Proof.
     apply (G _ _ _ Hc). apply Hin. unfold lo, hi, CONTEXT_LINES. lia.
 Qed.
 
-(* exactly when does show_error raise?  (n = number of lines) *)
+(* exactly when does show_error raise?  (n = number of lines; after fix 36cb910 the
+   previous line is only looked at for lineno >= 2) *)
 Theorem emit_crash_iff : forall (A : Type) (lines : list A) lineno col,
   emit lines (Some lineno) col = Crash <->
-  ~ (2 - Z.of_nat (length lines) <= lineno <= Z.of_nat (length lines)).
+  ~ (1 - Z.of_nat (length lines) <= lineno <= Z.of_nat (length lines)).
 Proof.
   intros A lines lineno col. unfold emit. set (n := Z.of_nat (length lines)).
   destruct (py_index lines (lineno - 1)) eqn:E1.
   2:{ apply py_index_none in E1. fold n in E1. split; [intros _; lia|reflexivity]. }
-  destruct (py_index lines (lineno - 2)) eqn:E2.
-  2:{ apply py_index_none in E2. fold n in E2. split; [intros _; lia|reflexivity]. }
   assert (H1 : - n <= lineno - 1 < n) by (apply py_index_some; eexists; exact E1).
-  assert (H2 : - n <= lineno - 2 < n) by (apply py_index_some; eexists; exact E2).
+  assert (Hprev : exists b, (if 2 <=? lineno then py_index lines (lineno - 2) else Some a) = Some b).
+  { destruct (2 <=? lineno) eqn:E3; [|eexists; reflexivity]. apply Z.leb_le in E3. apply py_index_some. fold n. lia. }
+  destruct Hprev as [b Hb]. rewrite Hb.
   set (lo := Z.max (lineno - CONTEXT_LINES) 1). set (hi := Z.min (lineno + CONTEXT_LINES + 1) (n + 1)).
   destruct (ctx_loop_ok A lines lineno (match col with Some _ => true | None => false end) (Z.to_nat (hi - lo)) lo) as [ctx [Hc _]].
   { unfold lo. lia. }
